@@ -140,14 +140,15 @@ class FileResponseMixin:
         }
         if download_name or content_type == "application/octet-stream":
             download_name = download_name or os.path.basename(filepath)
-            if download_name.isascii():
+            if download_name.isascii() and download_name.isprintable():
                 content_disposition = (
                     "attachment; "
                     f'filename="{download_name}"; '
                     f"filename*=utf-8''{quote(download_name)}"
                 )
             else:
-                # header text must be Latin-1: only send the encoded form
+                # header text must be Latin-1 without control characters:
+                # only send the encoded form
                 content_disposition = (
                     f"attachment; filename*=utf-8''{quote(download_name)}"
                 )
